@@ -323,6 +323,7 @@ class FracLaplSettings(BaseSettings):
         ir += 3 * self.nd1 + self.ndd
         self._size = ir
         _check_l1_dots(l1_dots, self.nk1)
+        _check_l1_dots(ld_dots, self.nd1)
 
     @property
     def npow(self):
@@ -692,6 +693,7 @@ class SDMXG1Settings(SDMXGSettings):
         """
         super(SDMXG1Settings, self).__init__(pows, nd)
         self._n1 = n1
+        assert self._n1 <= len(self.pows)
 
     @property
     def n1terms(self):
